@@ -6,10 +6,14 @@
   Proved here: the generic theorem for event trees, the CBOR parser on every accepted
   supported document, the adapters (array.go / map.go / string.go expansions).
   Fold (gotype) and the other two parsers: mirror + correspondence + WF monitor as oracle.
+
+  UBJSON PARSER (namespace `SF.PropsUbjP.C09`): the events delivered for every stream of
+  well-formed UBJSON items form a contract-conforming stream (`WF`).
 -/
 import SF.Proofs.Tree
 import SF.Proofs.CborTree
 import SF.Props.C05
+import SF.Proofs.UbjParseTop
 namespace SF.Props.C09
 open SF SF.Cbor SF.Cbor.Cst
 
@@ -123,3 +127,20 @@ theorem expand_map_wf (x : XEv)
 example : WF1 (XEv.expand (.numArr .i16 [-200, 5])) = true ∧ WF1 (XEv.expand (.strObj [])) = true := by decide
 
 end SF.Props.C09
+
+/-! ## UBJSON parser (SF/Ubjson/Parse.lean; proofs SF/Proofs/Ubj{Item,Tree,NoPanic*,Num,Ref*,Prog*,ParseTop}.lean) -/
+
+namespace SF.PropsUbjP.C09
+open SF SF.Ubjson SF.Ubjson.Parse SF.Ubjson.Syn
+open StateType StateStep
+
+/-- C09 for the UBJSON parser: the events it delivers for EVERY stream of well-formed items —
+plain, counted and typed containers, nested typed containers, no-ops — satisfy the Visitor
+contract automaton (balanced, keys only in objects, announced lengths exact, announced element
+types respected) -/
+theorem ubj_parser_wf (xs : List (Nat × Item)) (trail : Nat) (h : okElems xs = true)
+    (hfree : ∀ nx ∈ xs, free nx.2 ≤ 1000000) :
+    WF (events (parse {} (wireStream xs trail)).1) = true :=
+  SF.Props.UbjParse.parse_refines_wf xs trail h hfree
+
+end SF.PropsUbjP.C09
